@@ -1,8 +1,7 @@
 SPECIFICATION Spec
 CONSTANTS
   W = 2
-  ExprSet <- ExprsQuick
-  ResultSet <- ResultsC
+  Domain = "neg"
   SharedLeafMasks = TRUE
 INVARIANTS TestOK AllOK AnyOK MatchPure ApplyOK Repeatable
 CHECK_DEADLOCK FALSE
